@@ -25,11 +25,11 @@ func posByte(o int) byte { return byte((o*7 + o/251 + o/65521) & 0xff) }
 var errCustom = errors.New("custom transport error")
 
 type script struct {
-	items   []bk.ReadItem
+	items     []bk.ReadItem
 	zeroReads int
-	total   int    // bytes that the reader will have returned when the terminal error comes
-	termErr string // "" if the script has no terminal error (ended by cancellation)
-	desc    []string
+	total     int    // bytes that the reader will have returned when the terminal error comes
+	termErr   string // "" if the script has no terminal error (ended by cancellation)
+	desc      []string
 }
 
 func genScript(rng *rand.Rand, natural bool) script {
@@ -120,7 +120,9 @@ func runCase(r *mon.Run, idx int) {
 	}
 	out.Rd.Push(sc.items...)
 	out.Start()
-	if _, ok := w.Log.Wait(0, bk.Bound, func(e bk.Event) bool { return e.Kind == "slog" && e.Att == out.ID && e.Dir == "output" && e.S == bk.MsgNew }); !ok {
+	if _, ok := w.Log.Wait(0, bk.Bound, func(e bk.Event) bool {
+		return e.Kind == "slog" && e.Att == out.ID && e.Dir == "output" && e.S == bk.MsgNew
+	}); !ok {
 		viol("output-not-admitted", "the output stream was not admitted on an idle broker")
 		w.Close()
 		return
@@ -261,12 +263,17 @@ func Run(r *mon.Run) {
 	r.Rule = "each case: a fresh broker with operator channel capacity in {0,1,2,16,1024}, an output stream (unidirectional alone, with an input peer, or a bidirectional half) whose transport reader follows a PRNG script of reads (sizes 0..10000 incl. 2047/2048/2049, runs of zero-length reads, delays, terminal error EOF/unexpected EOF/closed pipe/custom/wrapped EOF alone or together with data) carrying position-coded bytes; the operator's terminal stalls on a PRNG schedule; optionally concurrent input traffic; ended by itself (natural) or by cancellation at a PRNG-chosen amount of progress. The displayed Plain chunks up to a marker line must be a prefix of the sent bytes, equal to all of them at a natural end, and none may follow the close notice. A case is non-trivial if it carried at least one byte; distinct = distinct (read script, capacity, kind, ending, stalls). Engine quiet: the stream is a series of 2-6 bursts (1 B ... 67 KiB, many of them exact multiples of the 2048-byte read size); the next burst or the end is made available only after every byte so far has been displayed (bounded progress 10 s): a shell that falls silent must not have to say more for what it said to be shown. " +
 		"Engine pty: the real binary on a pty, fake shells over raw TLS (chunked bodies) send numbered printable tokens in PRNG-sized writes; the de-escaped terminal text must show them once, in order, all of them before the close/gone notice when the stream ended by itself. " +
 		"Engine ptyb: the real binary on a pty, several shells one after the other per process, each shell's class fixed by its number: /i+/o or /io; chunked body or a body with a declared Content-Length (under 256 B, a few KiB, 64-300 KiB); a patient client (sends once the shell is reported ready) or an eager one (header and output at once, like curl -d @file); content = ASCII tokens, valid 2/3/4-byte UTF-8 characters, unfinished sequences, bytes that are never UTF-8 and arbitrary bytes (all values but ESC and CR), cut into TLS writes anywhere incl. inside a character and byte by byte; the stream ends by itself right after an unfinished multibyte sequence / after non-UTF-8 bytes / after a complete multibyte character / after ASCII, or the connection is dropped (for a declared length: before the promised length). The clean terminal text between the end of the callback help that follows the previous shell and this shell's first close/gone notice, minus the attach notices and the notice's own timestamp+address prefix, with CR LF read as LF, must equal the sent bytes exactly at a natural end and be a prefix of them after a drop; no token of the shell may appear after its notice. Bytes withheld from one shell's display would surface in the next shell's region and fail its comparison. " +
-		"Engine ptynb (environment: the terminal's open file description is non-blocking and the terminal is busy): the real binary is started on an ordinary blocking pty; after it has printed its banner (before the shell attaches, or once the shell is reported ready) the harness sets O_NONBLOCK on the pty slave it holds, i.e. on the very open file description the program has as stdin/stdout/stderr, as a sibling process sharing the terminal (ssh, a multiplexer, a wrapper) does; a patient shell on /i+/o or /io (chunked) then sends 80-200 KB of numbered tokens (long lines, short lines or both) in PRNG-sized TLS writes while the terminal is not read at all until the flood is over, or is drained in short pulses, or is read all the time; then the terminal is drained. At three moments (shell still attached; after its stream ended by itself; after Ctrl+D) the terminal text after the callback help, minus the attach notices, must be a prefix of the sent bytes (LF shown as CR LF), possibly followed by (a part of) the prompt or by text of the program that contains nothing of the shell's output; any byte of the shell shown twice, left out in the middle or out of order is a violation; so is a crash (death by signal, panic). The child's /proc/PID/fdinfo/1 confirms the non-blocking flag; sessions whose display stopped short of what was sent although the terminal was drained are counted (a terminal write was refused or taken in part) and floored"
+		"Engine ptynb (environment: the terminal's open file description is non-blocking and the terminal is busy): the real binary is started on an ordinary blocking pty; after it has printed its banner (before the shell attaches, or once the shell is reported ready) the harness sets O_NONBLOCK on the pty slave it holds, i.e. on the very open file description the program has as stdin/stdout/stderr, as a sibling process sharing the terminal (ssh, a multiplexer, a wrapper) does; a patient shell on /i+/o or /io (chunked) then sends 80-200 KB of numbered tokens (long lines, short lines or both) in PRNG-sized TLS writes while the terminal is not read at all until the flood is over, or is drained in short pulses, or is read all the time; then the terminal is drained. At three moments (shell still attached; after its stream ended by itself; after Ctrl+D) the terminal text after the callback help, minus the attach notices, must be a prefix of the sent bytes (LF shown as CR LF), possibly followed by (a part of) the prompt or by text of the program that contains nothing of the shell's output; any byte of the shell shown twice, left out in the middle or out of order is a violation; so is a crash (death by signal, panic). The child's /proc/PID/fdinfo/1 confirms the non-blocking flag; sessions whose display stopped short of what was sent although the terminal was drained are counted (a terminal write was refused or taken in part) and floored. " +
+		"Engines patience and patpty (schedule dimension: the PATIENCE of the display path; an operator's terminal that takes nothing for a while and then carries on is just a very slow terminal, and nobody pressed Ctrl+O). patience: a fresh broker per case, operator channel unbuffered or of 1, 2, 16, 1024 entries, output stream alone or as the half of a bidirectional attempt; in the middle of the stream (what was sent so far is on display) the consumer of the operator channel stops taking lines (bk.StallOperator) for 4, 11, 16 or 31 s - one to four such stalls per stream, 31 s at most per stream - while the shell has capacity+12..36 further reads of position-coded bytes pending (1-300 B, 2048 B, 2049-5048 B; in half of the natural ends the terminal error, alone or together with data, waits behind the stall too), then it takes lines again; the stream ends by itself (EOF / unexpected EOF / closed pipe / custom error) or, once everything is on display, by cancellation. The Plain chunks displayed up to a marker line must be exactly the bytes sent, none after the close notice, which must be there for a unidirectional natural end. Counted and floored per stall: at the moment the terminal carried on the broker's reader had not yet read everything the shell had to say (the back-pressure reached the broker and lasted), the stall lasted as planned; per stall length, channel class, several stalls per stream. patpty: the real binary on a blocking pty with -log, a patient chunked shell on /i+/o or /io sends 5-45 small TLS writes, which are displayed, then the terminal is not read at all (ptyx.PauseReading) for 11 and 31 s (thorough: 4, 11, 16, 31 s twice) while the shell sends 0.45-0.6 MB of numbered tokens in 4500-6500 TLS writes of 1-200 B (now and then 2-5 KB), more chunks than the pty's kernel buffer plus the program's 1024-entry operator channel hold; then the terminal is read again, the last 50-250 writes are sent and the body ends by itself. Oracle as in ptyb: the clean terminal text between the callback help and the first close/gone notice, minus attach notices and the notice's prefix, CR LF read as LF, equals the sent bytes; nothing of the shell after the notice. Counted and floored: when the terminal was read again the program's JSON log had recorded fewer forwarded output bytes than the shell had written. All patience cases run at the same time, beside the other engines"
 	r.Assumptions = []string{"position code has period > 64 KiB so any drop/duplication/reorder changes a byte at a known offset",
 		"ptyb: the line editor writes Plain chunks to the raw-mode terminal unchanged except LF -> CR LF, and removes/redraws the prompt around each write with escape sequences that ptyx's clean text undoes; payloads contain no ESC (would start an escape sequence for ptyx) and no CR (so that CR LF -> LF inverts the mapping exactly)",
 		"ptyb: operator notices have the form [time ][address] text; a region whose end cannot be told from the start of the end notice is reported inconclusive, not violated; the harness's shells attach only after the program has finished re-printing the callback help (printed by another goroutine, it could otherwise legitimately interleave with output)",
 		"ptyb: how long a patient client waits for the ready notice (3 s at most) only shapes the schedule; verdicts depend on the final terminal text only, except the bounded (30 s) waits for the ready notice before a connection is dropped (a connection dropped before it was attached promises nothing, so dropping clients drop once attached) and for the gone notice after the stream has ended",
-		"ptynb: once a write to the terminal fails (EAGAIN, possibly after a part of the buffer was taken) the unchanged program ends its output handling and shows nothing more of the shell; the statement says nothing about a terminal that refuses writes, so in this environment completeness at a natural end is NOT demanded and only the prefix / nothing-twice / nothing-reordered rule is judged, at whatever moments the harness looks (the waits for the terminal to fall quiet only choose those moments); the prompt is the default \"> \" and the payload contains neither of its characters next to each other, no ESC and no CR; stdin shares the description, so the program may also end by itself with a read error: that is not judged"}
+		"ptynb: once a write to the terminal fails (EAGAIN, possibly after a part of the buffer was taken) the unchanged program ends its output handling and shows nothing more of the shell; the statement says nothing about a terminal that refuses writes, so in this environment completeness at a natural end is NOT demanded and only the prefix / nothing-twice / nothing-reordered rule is judged, at whatever moments the harness looks (the waits for the terminal to fall quiet only choose those moments); the prompt is the default \"> \" and the payload contains neither of its characters next to each other, no ESC and no CR; stdin shares the description, so the program may also end by itself with a read error: that is not judged",
+		"patience/patpty: how long a stall really lasts is up to the clock and only decides which give-up thresholds it straddles (counted: lasted as planned); the verdict is the comparison of displayed and sent bytes and consults no clock, except the bounded waits for progress once the terminal takes lines again (30 s in-process, 60 s for the gone notice of the real binary), where the statement itself promises that what was sent is shown; a stalled terminal is a slow terminal, not a muting operator: no Ctrl+O is ever typed in these cases",
+		"patpty: payload = ptynb's numbered ASCII tokens (no ESC, no CR); one TLS write per HTTP chunk; the shell's writes may block on TCP back-pressure during the stall (write deadline stall + 60 s, expiry = inconclusive)"}
+	// the patience cases need real time (stalls of up to 31 s): they run beside everything else
+	patienceWait := patienceStart(r)
 	n := r.N(2500, 40000)
 	if r.WantEngine("script") {
 		mon.Parallel(n, runtime.NumCPU(), func(i int) {
@@ -287,6 +294,7 @@ func Run(r *mon.Run) {
 	if r.WantEngine("ptynb") {
 		ptynbSessions(r)
 	}
+	patienceWait()
 	r.Floor("bytes_displayed", 100000)
 	r.Floor("natural_ends", 100)
 	r.Floor("cancelled_ends", 30)
